@@ -318,6 +318,7 @@ func (db *DB) memCompaction() {
 
 	rec.setJournalNum(db.journalFd.Num)
 	rec.setSeqNum(db.frozenSeq)
+	verifAt("c.flush", mdb.DB, rec, flushLevel, db.frozenSeq)
 
 	// Commit.
 	stats.startTimer()
@@ -563,6 +564,7 @@ func (db *DB) tableCompaction(c *compaction, noTrivial bool) {
 		db.logf("table@move L%d@%d -> L%d", c.sourceLevel, t.fd.Num, c.sourceLevel+1)
 		rec.delTable(c.sourceLevel, t.fd.Num)
 		rec.addTableFile(c.sourceLevel+1, t)
+		verifAt("c.move", c.sourceLevel, t.fd.Num, c.v)
 		db.compactionCommit("table-move", rec)
 		return
 	}
@@ -593,6 +595,7 @@ func (db *DB) tableCompaction(c *compaction, noTrivial bool) {
 
 	// Commit.
 	stats[1].startTimer()
+	verifAt("c.table", c.sourceLevel, minSeq, c.v, c.levels[0], c.levels[1], rec)
 	db.compactionCommit("table", rec)
 	stats[1].stopTimer()
 
